@@ -1207,13 +1207,14 @@ fn check_tokens(text: &str, data: &[u64], legend: &[String], n_modifiers: usize)
     if first.is_ok() {
         return first;
     }
+    let mut others = String::new();
     for unit in [Unit::Bytes, Unit::Chars] {
-        let r = check_tokens_in_unit(text, data, legend, n_modifiers, unit);
-        if r.is_ok() {
-            return r;
+        match check_tokens_in_unit(text, data, legend, n_modifiers, unit) {
+            Ok(n) => return Ok(n),
+            Err((clause, detail)) => others.push_str(&format!("; counting in {unit:?}: {clause}: {detail}")),
         }
     }
-    first.map_err(|(clause, detail)| (clause, format!("{detail} (counting in UTF-16 units; counting in bytes or in characters does not fit either)")))
+    first.map_err(|(clause, detail)| (clause, format!("{detail} (counting in UTF-16 units{others})")))
 }
 
 /// Words that are keywords beyond doubt in IEC 61131-3 (delimiters of declarations and
